@@ -161,6 +161,15 @@ func (st Style) path(p []string) string {
 	return st.quote(PathText(p))
 }
 
+// orderKey renders an ORDER BY key: a single name that is no plain word is an output column written the way its alias
+// was written - quoted as an identifier, not as a quoted key of the selector language.
+func (st Style) orderKey(p []string) string {
+	if len(p) == 1 && !plainIdent.MatchString(p[0]) && !strings.ContainsAny(p[0], "`\"'") {
+		return st.quote(p[0])
+	}
+	return st.path(p)
+}
+
 // SQLString quotes a string literal for the MySQL-dialect parser.
 func SQLString(s string) string {
 	s = strings.ReplaceAll(s, `\`, `\\`)
@@ -465,7 +474,7 @@ func (st Style) Query(q Node) string {
 			if !o["asc"].(bool) {
 				dir = " DESC"
 			}
-			ks = append(ks, st.path(strs(o["key"]))+dir)
+			ks = append(ks, st.orderKey(strs(o["key"]))+dir)
 		}
 		b.WriteString(" ORDER BY " + strings.Join(ks, ", "))
 	}
